@@ -15,10 +15,13 @@ import (
 // ErrTransport is the error injected by FailRead/FailWrite.
 var ErrTransport = errors.New("vpipe: injected transport failure")
 
+// ErrTransient is reported once, together with data, by a Read of a pipe with GlitchAfter set.
+var ErrTransient = errors.New("vpipe: transient read failure")
+
 // Pipe is the connection-side io.ReadWriteCloser plus the peer-side controls.
 type Pipe struct {
 	// OnWrite, if set, runs (in the writer's task) each time bytes are accepted by Write.
-	OnWrite func()
+	OnWrite    func()
 	In         []byte // peer -> connection, not yet read
 	InEOF      bool   // peer ended its sending side
 	InErr      error  // transport read failure once In is drained
@@ -37,7 +40,14 @@ type Pipe struct {
 	// StickyRead > 0: a transport whose Read does not return on Close: for that long after
 	// Close a Read stays blocked, unless late bytes from the peer arrive, which it delivers
 	StickyRead time.Duration
-	CloseErr   error         // what Close returns (the transport is closed all the same), e.g. a TLS close_notify failure
+	CloseErr   error // what Close returns (the transport is closed all the same), e.g. a TLS close_notify failure
+
+	// GlitchAfter > 0: the Read that delivers the GlitchAfter-th byte (counted over all reads) ends
+	// there and reports ErrTransient together with its data, once; the transport goes on working
+	// (a TLS record that failed to decrypt after earlier ones were delivered, an EINTR surfaced by a
+	// wrapper)
+	GlitchAfter int
+	delivered   int
 
 	Writes []int // size of every chunk accepted (for atomicity diagnostics)
 	Reads  int
@@ -89,8 +99,21 @@ func (p *Pipe) Read(b []byte) (n int, err error) {
 			if alt == 1 {
 				m = 1
 			}
+			glitch := false
+			if p.GlitchAfter > 0 && p.delivered < p.GlitchAfter && p.delivered+m >= p.GlitchAfter {
+				m = p.GlitchAfter - p.delivered
+				glitch = true
+			}
+			if m > len(b) {
+				m = len(b)
+				glitch = false
+			}
 			n = copy(b, p.In[:m])
 			p.In = p.In[n:]
+			p.delivered += n
+			if glitch {
+				err = ErrTransient
+			}
 		case p.InErr != nil:
 			err = p.InErr
 		default:
